@@ -212,6 +212,7 @@ func runParseCases(all []*Case, out *vio.Out, caseLog *vio.Out) {
 			f := font(c.Font)
 			a := &agg{}
 			res[[2]int{c.ID, p}] = a
+			markCurrent(p, c.ID)
 			for r := 0; r < c.Reps; r++ {
 				noise.Set(r%2 == 1) // every other repetition runs against two yielding goroutines
 				o := dsl.RunParse(f.F, c.Text, watchdog, settle)
@@ -630,6 +631,22 @@ func sweep(shapesPath, outPath string) {
 			add("nc", t, "lexical construct at the end of the input")
 		}
 	}
+	// quoted strings with every kind of backslash sequence, complete and cut short, at the start, in the middle
+	// and at the end of the string (the lexer accepts a backslash followed by any character)
+	for _, esc := range []string{`\\`, `\"`, `\n`, `\t`, `\x`, `\x4`, `\x41`, `\u`, `\u1`, `\u12`, `\u123`, `\u0041`, `\U`, `\U0001`,
+		`\U00000041`, `\0`, `\101`, `\q`, `\ `, `\{`} {
+		for _, str := range []string{esc, "A" + esc, esc + "B", "A" + esc + "B", esc + esc} {
+			for _, f := range []string{"nc", "c"} {
+				for _, tmpl := range []string{"GSUB4: \"%s\" -> A", "GSUB1: \"%s\" -> B\nGSUB1: A -> B", "GSUB6: \"%s\" | A | B -> 1@0\nGSUB1: A -> B"} {
+					t := fmt.Sprintf(tmpl, str)
+					if !seen[f+t] {
+						seen[f+t] = true
+						add(f, t, "backslash sequence "+esc+" in a quoted string")
+					}
+				}
+			}
+		}
+	}
 	// fonts without a usable character map (Parse returns early): valid descriptions, end-of-input texts
 	for _, f := range []string{"0", "00"} {
 		for di, d := range cat {
@@ -989,4 +1006,12 @@ func renameGlyphs(f *sfnt.Font, r int) func() {
 		o.Names[i] = orig[1+(i-1+7*r)%n]
 	}
 	return func() { copy(o.Names, orig) }
+}
+
+// markCurrent notes which case is about to run (file $C19_CUR): a panic in a goroutine the library started cannot
+// be recovered and ends the process; the orchestrator then knows the case, reproduces it and goes on behind it.
+func markCurrent(p, id int) {
+	if path := os.Getenv("C19_CUR"); path != "" {
+		os.WriteFile(path, []byte(fmt.Sprintf("%d:%d", p, id)), 0o644)
+	}
 }
